@@ -218,6 +218,13 @@ pub fn run(ctx: &Ctx) {
             loc.state(i, true);
             match catch(|| dlt_message(&b, None, false).map(|(rest, pm)| (rest.len(), pm))) {
                 Ok(Ok((0, ParsedMessage::Item(pm)))) => {
+                    // a String that is not valid UTF-8 must never be formatted: report it by its bytes
+                    let texts: Vec<&String> = pm.extended_header.iter().flat_map(|e| [&e.application_id, &e.context_id]).chain(pm.header.ecu_id.iter()).collect();
+                    if let Some(bad) = texts.iter().find(|t| std::str::from_utf8(t.as_bytes()).is_err()) {
+                        loc.outcome("invalid UTF-8 id");
+                        loc.violation("an id is returned that is not valid UTF-8", format!("{} bytes {} followed by {} bytes {}: the parser returned an id holding the bytes {} (not valid UTF-8)", l1, hex(&b[o1..o1 + 4]), l2, hex(&b[o2..o2 + 4]), hex(bad.as_bytes())), json!({"input_hex": hex_short(&b)}));
+                        return;
+                    }
                     let ok = if c[2] == 0 {
                         pm.extended_header.as_ref().map(|e| (e.application_id.as_str(), e.context_id.as_str())) == Some((e1.as_str(), e2.as_str()))
                     } else {
@@ -263,6 +270,12 @@ pub fn run(ctx: &Ctx) {
             };
             match catch(|| dlt_message(&b, filter.as_ref(), true).map(|(rest, pm)| (rest.len(), pm))) {
                 Ok(Ok((0, ParsedMessage::Item(pm)))) => {
+                    let texts: Vec<&String> = pm.extended_header.iter().flat_map(|e| [&e.application_id, &e.context_id]).chain(pm.header.ecu_id.iter()).chain(pm.storage_header.iter().map(|s| &s.ecu_id)).collect();
+                    if let Some(bad) = texts.iter().find(|t| std::str::from_utf8(t.as_bytes()).is_err()) {
+                        loc.outcome("invalid UTF-8 id");
+                        loc.violation("an id is returned that is not valid UTF-8", format!("{} bytes {}: the parser returned an id holding the bytes {} (not valid UTF-8)", label, hex(&b[o..o + 4]), hex(bad.as_bytes())), json!({"input_hex": hex_short(&b)}));
+                        return;
+                    }
                     let got = match c[1] {
                         0 => pm.storage_header.as_ref().map(|s| s.ecu_id.clone()),
                         1 => pm.header.ecu_id.clone(),
